@@ -183,7 +183,7 @@ class Track:
         # Use round() to avoid scheduling issues arising from rounding errors.
         #----------------------------------------------------------------------
         for note_off in self.note_offs[:]:
-            if round(note_off.timestamp, 8) <= round(self.current_time, 8):
+            if round(note_off.timestamp - self.current_time, 8) <= 0:
                 self.output_device.note_off(note_off.note, note_off.channel)
                 self.note_offs.remove(note_off)
 
@@ -197,8 +197,8 @@ class Track:
 
         try:
             if self.interpolate is None or self.interpolate == INTERPOLATION_NONE:
-                if round(self.current_time, 8) >= round(self.next_event_time, 8):
-                    while round(self.current_time, 8) >= round(self.next_event_time, 8):
+                if round(self.current_time - self.next_event_time, 8) >= 0:
+                    while round(self.current_time - self.next_event_time, 8) >= 0:
                         #--------------------------------------------------------------------------------
                         # Retrieve the next event.
                         # If no more events are available, this raises StopIteration.
